@@ -119,6 +119,15 @@ func runStandin(repo, verif, prop, tier string, seed int64, si Standin) (map[str
 		if len(o) > 6000 {
 			o = o[len(o)-6000:]
 		}
+		// A stand-in is an in-package test and may use unexported names. If it no longer compiles although the package
+		// and its own tests still do (a harmless refactoring renamed something it uses), that says nothing about the
+		// property: the stand-in is reported as skipped in the evidence and does not raise an alarm.
+		if (strings.Contains(txt, "[build failed]") || strings.Contains(txt, "[setup failed]")) && (strings.Contains(txt, "zz_standin_verif_") || strings.Contains(txt, "/standins/")) && packageTestsBuild(cmd.Dir) {
+			rep["skipped"] = "does not compile against this tree (the package and its own tests do): " + firstLines(txt, 6)
+			rep["cases"], rep["distinct"], rep["failures"] = 0, 0, 0
+			fmt.Printf("STANDIN-SKIPPED property=%s file=%s: does not compile against this tree; bounded coverage of this file is missing in this run\n", prop, si.File)
+			return rep, nil
+		}
 		fails = append(fails, standinFailure{Name: "build-or-run", Output: o})
 	}
 	if err == nil && cases == 0 {
@@ -126,4 +135,22 @@ func runStandin(repo, verif, prop, tier string, seed int64, si Standin) (map[str
 	}
 	rep["failures"] = len(fails)
 	return rep, fails
+}
+
+// packageTestsBuild reports whether the package in dir and its own test files compile (no overlay).
+func packageTestsBuild(dir string) bool {
+	ctx, cancel := context.WithTimeout(context.Background(), 300*time.Second)
+	defer cancel()
+	cmd := exec.CommandContext(ctx, "go", "test", "-vet=off", "-count=1", "-run", "^$", ".")
+	cmd.Dir = dir
+	cmd.Env = goEnv()
+	return cmd.Run() == nil
+}
+
+func firstLines(s string, n int) string {
+	ls := strings.Split(s, "\n")
+	if len(ls) > n {
+		ls = ls[:n]
+	}
+	return strings.Join(ls, " | ")
 }
